@@ -164,25 +164,21 @@ Definition umax (a b : N) : N := if a <? b then b else a.
 Definition to_signed (w : N) (x : N) : Z :=
   if N.testbit x (w - 1) then (Z.of_N x - 2 ^ Z.of_N w)%Z else Z.of_N x.
 (* min<SInt>/max<SInt> go through the frontend's SInt comparison (SignalCompareOp.cpp):
-   gt(lhs, rhs) = (rhs - lhs).sign(), lt(lhs, rhs) = (lhs - rhs).sign(), the subtraction
-   at the operand width (it wraps) *)
+   lt(lhs, rhs) = (sext(lhs, w+1) - sext(rhs, w+1)).sign(), gt(lhs, rhs) = lt(rhs, lhs);
+   the subtraction is done one bit wider than the operands and wraps at that width *)
 Definition sub_w (w a b : N) : N := (a + 2 ^ w - b mod 2 ^ w) mod 2 ^ w.
-Definition sgt (w a b : N) : bool := N.testbit (sub_w w b a) (w - 1).
-Definition slt (w a b : N) : bool := N.testbit (sub_w w a b) (w - 1).
+Definition sext1 (w x : N) : N := if N.testbit x (w - 1) then x + 2 ^ w else x.   (* sext to w+1 bits *)
+Definition slt (w a b : N) : bool := N.testbit (sub_w (w + 1) (sext1 w a) (sext1 w b)) w.
+Definition sgt (w a b : N) : bool := slt w b a.
 Definition smin (w a b : N) : N := if sgt w a b then b else a.
 Definition smax (w a b : N) : N := if slt w a b then b else a.
 
 (* ------------------------------------------------------------------ math.cpp
-   biggestPowerOfTwo: result = 0; for i: IF(input.at(i)) result = zext(1 << i) *)
+   biggestPowerOfTwo: result = 0; for i: candidate = 0 (input width); candidate[i] = '1';
+   IF(input.at(i)) result = candidate *)
 Definition bpo2 (v : bits) : N :=
   let w := N.of_nat (length v) in
   fold_left (fun r '(i, b) => if b : bool then (2 ^ i) mod 2 ^ w else r) (indexed_from 0 v) 0.
-(* `UInt candidate = 1 << i` shifts a C++ int: for i = 31 the value is INT_MIN and the UInt
-   constructor rejects it ("Can not assign negative values to UInt"), so the generator only
-   exists for operands of at most 31 bits; None = design-time failure *)
-Definition bpo2_supported (w : N) : bool := w <=? 31.
-Definition bpo2_gen (v : bits) : option N :=
-  if bpo2_supported (N.of_nat (length v)) then Some (bpo2 v) else None.
 
 (* longDivision(UInt numerator, UInt denominator, 0):
    remainder = cat(0 (denomW bits), numerator);
